@@ -42,7 +42,8 @@ def plan(tier, seed):
     # (EL7041 with its own process-data declarations)
     return [dict(seed=seed, shard=i, n=n, cross=(i < 4), part=i,
                  bundled=(i in (2, 3) or i >= 10),
-                 regrouped=(i in (1, 3, 7, 8, 12, 13)))
+                 regrouped=(i in (1, 3, 7, 8, 12, 13)),
+                 counter_first=(i in (0, 2, 6, 9, 12, 15)))
             for i in range(16)]
 
 
@@ -106,6 +107,15 @@ def regrouped(inner):
                                     use_fmmu=False)
         a = D.AnalogInput(v0[SyncManager.IN, 0])
         return devs + [a], terms + [t0]
+    return fn
+
+
+def with_counter(inner):
+    """a Counter device listed before the Motor in the same fast group (all
+    devices of a group are compiled into one program)"""
+    def fn(ec):
+        devs, terms = inner(ec)
+        return [D.Counter()] + devs, terms
     return fn
 
 
@@ -182,13 +192,17 @@ def run_shard(params):
         if params.get("regrouped"):
             dfn = regrouped(dfn)
             res.count("regrouped_motor_shards")
+        if params.get("counter_first"):
+            dfn = with_counter(dfn)
+            res.count("shards_with_a_counter_before_the_motor")
         rig = fastrig.FastRig(sess, dfn)
         (lB, lb), (hB, hb), poff, (eB, eb), voff = \
             EL7041_LAYOUT if bundled else OWN_LAYOUT
         res.count("bundled_terminal_shards" if bundled
                   else "own_terminal_shards")
         try:
-            m = rig.devs[0]
+            m = [d for d in rig.devs if isinstance(d, D.Motor)][0]
+            cnt = [d for d in rig.devs if isinstance(d, D.Counter)]
             t = rig.terms[0]
             ri = rig.region(t, SyncManager.IN)
             ro = rig.region(t, SyncManager.OUT)
@@ -212,6 +226,8 @@ def run_shard(params):
                 m.max_acceleration = vec["acc"]
                 m.max_velocity = vec["vmax"]
                 m.set_enable = vec["enable"]
+                if cnt and nv % 97 == 0:
+                    cnt[0].lasttime = 0       # statistics restarted
                 f = bytearray(base)
                 f[ri + lB] = 0
                 f[ri + hB] = 0
@@ -275,6 +291,7 @@ def finalize(res, tier, seed):
     for k in ("acceleration_clamp_active", "velocity_clamp_active",
               "switch_blocks", "bundled_terminal_shards",
               "regrouped_motor_shards",
+              "shards_with_a_counter_before_the_motor",
               "own_terminal_shards"):
         if not c.get(k):
             res.inconc(f"{k}: never exercised")
